@@ -128,6 +128,8 @@ package main
 // is at least every stored message number.
 //@ func initTopicGrp(t *Topic) (err error)
 //@   requires [C01] t != nil && rowMax[t.name] <= hwm[t.name]
+// (C07: whether a group is a channel is what its stored row says - not how the request that loaded it spelt its name)
+//@   ensures [C07] channel_by_stored_flag_only: err == nil && stopic != nil ==> t.isChan == stopic.UseBt
 // (C03: a topic whose stored state is 'suspended' refuses publishes however long ago it was suspended: loading it restores the flag)
 //@   ensures [C03] suspended_loads_read_only: err == nil && stopic != nil && stopic.State == types.StateSuspended ==> (t.status & topicStatusReadOnly) != 0
 //@   ensures [C01] lastID_restored: err == nil ==> t.lastID == hwm[t.name] && rowMax[t.name] <= t.lastID
@@ -780,6 +782,8 @@ package main
 //@   ensures [C02] fresh_copy: src != nil ==> dst != nil && dst != src && dst.Id == src.Id && dst.SkipSid == src.SkipSid
 //@   ensures [C02] data_copied: src != nil && src.Data != nil ==> dst.Data != nil && dst.Data != src.Data && dst.Data.Topic == src.Data.Topic && dst.Data.From == src.Data.From && dst.Data.SeqId == src.Data.SeqId && dst.Data.Content == src.Data.Content && dst.Data.Head == src.Data.Head && dst.Data.Timestamp == src.Data.Timestamp
 //@   ensures [C02] data_absent: src != nil && src.Data == nil ==> dst.Data == nil
+// (each recipient's copy of a relayed note is its own: the topic name is rewritten per recipient on the copy)
+//@   ensures [C09] info_copied: src != nil && src.Info != nil ==> dst.Info != nil && dst.Info != src.Info && dst.Info.Topic == src.Info.Topic && dst.Info.From == src.Info.From && dst.Info.What == src.Info.What && dst.Info.SeqId == src.Info.SeqId && dst.Info.Src == src.Info.Src
 
 // C10: online accounting. A user's count of online sessions in a topic goes up only by the {sub} that attaches a
 // foreground session of that user - by exactly one - and a disabled contact on 'me' is always kept offline.
@@ -1246,3 +1250,25 @@ package main
 //@   modifies t.status
 //@   ensures [C03,C14] paused_iff_asked: ((t.status & topicStatusPaused) != 0) == pause
 //@   ensures [C03,C14] other_bits_kept: (t.status & topicStatusMarkedDeleted) == (old(t.status) & topicStatusMarkedDeleted) && (t.status & topicStatusReadOnly) == (old(t.status) & topicStatusReadOnly) && (t.status & topicStatusLoaded) == (old(t.status) & topicStatusLoaded)
+
+// ---------------------------------------------------------------------------------------------
+// Round 6.
+// C04: the range and the limit of a history or deletion-log query reach the store as the client gave them - an empty
+// or inverted range stays empty, it is never widened.
+//@ func msgOpts2storeOpts(req *MsgGetOpts) (opts *types.QueryOpt)
+//@   modifies nothing
+//@   ensures [C04] absent_stays_absent: req == nil ==> opts == nil
+//@   ensures [C04] bounds_passed_on: req != nil ==> opts != nil && opts.Since == req.SinceId && opts.Before == req.BeforeId && opts.Limit == req.Limit
+
+// C05: a permission change is announced with both deltas whenever at least one of them says something.
+//@ func (p *presParams) packAcs() (r *MsgAccessMode)
+//@   requires [C05] p != nil
+//@   modifies nothing
+//@   ensures [C05] one_sided_change_is_announced: p.dWant != "" || p.dGiven != "" ==> r != nil && r.Want == p.dWant && r.Given == p.dGiven
+//@   ensures [C05] nothing_to_say: p.dWant == "" && p.dGiven == "" ==> r == nil
+
+// C20: a presence notice keeps its actor and its target apart on the wire.
+//@ func pbServPresSerialize(pres *MsgServerPres) (r *pbx.ServerMsg_Pres)
+//@   requires [C20] pres != nil
+//@   modifies inferred
+//@   ensures [C20] actor_and_target_kept: r != nil && r.Pres != nil && r.Pres.TargetUserId == pres.AcsTarget && r.Pres.ActorUserId == pres.AcsActor && r.Pres.Topic == pres.Topic && r.Pres.Src == pres.Src && r.Pres.UserAgent == pres.UserAgent
